@@ -48,6 +48,8 @@ POOL = [
     ("cr2o7", {"CrO4-2": 2, "H+": 2}, {"Cr2O7-2": 1, "H2O": 1}, 14.6 + 1.744),
     ("hac", {"CH3COOH": 1}, {"H+": 1, "CH3COO-": 1}, -4.76),
     ("agnh3", {"Ag+": 1, "NH3": 2}, {"Ag(NH3)2+": 1}, 7.2),
+    # written as a dissociation: two products, one of them with an even coefficient (C08's bracketing scalar solver)
+    ("agnh3d", {"Ag(NH3)2+": 1}, {"Ag+": 1, "NH3": 2}, -7.2),
 ]
 TAGS = [p[0] for p in POOL]
 
